@@ -47,8 +47,8 @@ func (x *hW) opBuilderAddWith(i int, add uint8, r int, t Entity) {
 	v := hSymVals("badd")
 	e := x.h[i]
 	comps := x.comps(add, &v)
-	pan, _ := vCatch(func() { NewBuilderWith(&x.w, comps...).WithRelation(x.id[r]).Add(e, t) })
-	x.expectPanic(pan, !legal, "Builder.Add with component values and target panics exactly when illegal")
+	pan, msg := vCatch(func() { NewBuilderWith(&x.w, comps...).WithRelation(x.id[r]).Add(e, t) })
+	x.expectPanic(pan, msg, !legal, "Builder.Add with component values and target panics exactly when illegal")
 	if !pan {
 		x.mExchange(i, add, 0, true, t)
 		x.mSetVals(i, add, &v)
